@@ -69,6 +69,16 @@ func (p *Parser) typeErrorIn(obj types.Object) error {
 					return logger.Errorf("%v: %v", p.fset.Position(e.Pos), e.Msg)
 				}
 			}
+			// The interfaces it embeds hand their methods on, and their losses with them.
+			if iface, ok := obj.Type().Underlying().(*types.Interface); ok {
+				for i := 0; i < iface.NumEmbeddeds(); i++ {
+					if named, ok := iface.EmbeddedType(i).(*types.Named); ok && named.Obj() != obj {
+						if err := p.typeErrorIn(named.Obj()); err != nil {
+							return err
+						}
+					}
+				}
+			}
 		}
 	}
 	return nil
